@@ -2,6 +2,7 @@
 //! `vf` — driver of the deterministic-simulation checks (see /verif/DESIGN.md).
 mod checks;
 mod common;
+mod model;
 mod par;
 mod rng;
 mod worker;
@@ -35,6 +36,7 @@ fn run() -> Result<i32, Harness> {
     match pos.first().map(|s| s.as_str()) {
         Some("check") => match pos.get(1).map(|s| s.as_str()) {
             Some("C18") => checks::c18::check(&cfg),
+            Some("C17") => checks::c17::check(&cfg),
             _ => usage(),
         },
         Some("replay") => {
@@ -42,6 +44,7 @@ fn run() -> Result<i32, Harness> {
             let v: Violation = serde_json::from_str(&std::fs::read_to_string(p)?)?;
             let got = match v.property.as_str() {
                 "C18" => checks::c18::replay(&cfg, &v)?,
+                "C17" => checks::c17::replay(&cfg, &v)?,
                 other => return Err(Harness(format!("no replay for {other}"))),
             };
             match got {
